@@ -20,6 +20,7 @@ The model gets (script mapping nulls calls) with the concrete call list (Compone
 """
 from . import envshim  # noqa: F401
 import itertools
+import numpy as np
 import random
 from .runner import Component
 from . import stubsim, wrapstub
@@ -78,7 +79,8 @@ class Codec:
         if kind == 3:
             return [3, int(val)]
         if kind == 4:
-            return [4, 1 if val else 0] if type(val) is bool else [4, -1]
+            # an uncovered agent's flag is the simulation's own answer (possibly a numpy boolean)
+            return [4, 1 if val else 0] if isinstance(val, (bool, np.bool_)) else [4, -1]
         if kind == 5:
             if sup:
                 return [5, [[aidx(c), int(i)] for c, i in val.items()]]
